@@ -9,7 +9,7 @@ sys.path.insert(0, os.path.dirname(HERE))
 sys.path.insert(0, HERE)
 import pvlib
 
-ALL = ["x_module", "x_iterable", "x_match", "x_objalg", "x_strcase", "x_convcoll", "x_cli", "x_jsondec", "x_range", "x_num", "x_arr", "x_str", "x_map", "x_nil", "x_comparable", "x_func"]
+ALL = ["x_module", "x_iterable", "x_match", "x_objalg", "x_strcase", "x_convcoll", "x_cli", "x_jsondec", "x_range", "x_num", "x_arr", "x_str", "x_map", "x_nil", "x_comparable", "x_func", "x_stdin"]
 
 
 def main():
